@@ -222,6 +222,8 @@ structure CoreOps where
   front : M (Option Nat) := CircBuf.front?
   back : M (Option Nat) := CircBuf.back?
   asSlices : M (View × View) := CircBuf.asSlices
+  remove : Nat → M (Option Elem) := CircBuf.remove
+  makeContiguous : M View := CircBuf.makeContiguous
 
 def modelOps : CoreOps := {}
 
@@ -251,7 +253,7 @@ def runOp (o : CoreOps) (toks : List String) : M String := do
   | ["pop_back"] => do let r ← o.popBack; pure (showOwned r)
   | ["pop_front"] => do let r ← o.popFront; pure (showOwned r)
   | ["remove", i] => match parseNat i with
-    | some i => do let r ← remove i; pure (showOwned r)
+    | some i => do let r ← o.remove i; pure (showOwned r)
     | none => bad
   | ["swap", i, j] => match parseNat i, parseNat j with
     | some i, some j => do o.swap i j; pure "-"
@@ -286,7 +288,7 @@ def runOp (o : CoreOps) (toks : List String) : M String := do
       extendFromSlice src; pure "-"
     | none => bad
   | ["make_contiguous"] => do
-    let v ← makeContiguous
+    let v ← o.makeContiguous
     let b ← getBuf
     pure (showView b v)
   | ["get", i] => match parseNat i with
